@@ -573,6 +573,24 @@ func (w *wrapNode) Reopen() error {
 }
 func (w *wrapNode) Type() el.NodeType { return w.inner.Type() }
 
+// closerWrap is a decorator with resources of its own: a Closer AND a NodeUnwrapper. Closing the
+// registered node means calling ITS Close, which in turn closes what it wraps.
+type closerWrap struct {
+	inner  *recNode
+	Closes int
+}
+
+func (c *closerWrap) Process(ctx context.Context, e *el.Event) (*el.Event, error) {
+	return c.inner.Process(ctx, e)
+}
+func (c *closerWrap) Reopen() error     { return c.inner.Reopen() }
+func (c *closerWrap) Type() el.NodeType { return c.inner.Type() }
+func (c *closerWrap) Unwrap() el.Node   { return c.inner }
+func (c *closerWrap) Close(ctx context.Context) error {
+	c.Closes++
+	return c.inner.Close(ctx)
+}
+
 // valueNode is a node whose dynamic type is NOT comparable (a struct with a slice field,
 // registered by value): legal, since nothing in the Node contract asks for comparability.
 type valueNode struct {
